@@ -268,6 +268,8 @@ theorem parse_ghost (sp : Strptime) (fmt input : Bytes) (z : Tz.Zone) :
   refine bind_snd _ _ (fun x => ?_)
   obtain ⟨tm, offset, subseconds⟩ := x
   simp only []
+  split
+  · simp only [purev]
   refine bind_snd _ _ (fun yr => ?_)
   split
   · simp only [purev]
